@@ -653,10 +653,10 @@ PI = None
 
 
 def pi_const():
+    """the library uses the double np.pi; its exact rational value is the 'pi' of Mode R (cos(fl(pi)) rounds to -1.0)"""
     global PI
     if PI is None:
-        PI = z3.Real("pi!const")
-    S.add_side(z3.And(PI > z3.Q(314159, 100000), PI < z3.Q(314160, 100000)))
+        PI = rv(math.pi)
     return PI
 
 
@@ -843,37 +843,61 @@ def _f_consts():
     return F0, F1
 
 
+def _absle(x, y):
+    return z3.fpLEQ(z3.fpAbs(x), z3.fpAbs(y))
+
+
+def _midrange(x):
+    """2^-500 <= |x| <= 2^500 : products/squares of such numbers neither overflow nor lose precision"""
+    return z3.And(z3.fpGEQ(z3.fpAbs(x), fv(2.0 ** -500)), z3.fpLEQ(z3.fpAbs(x), fv(2.0 ** 500)))
+
+
 def _f_mul(a, b):
+    """IEEE multiplication.  exact mode: fp.mul.  relaxed mode: a memoised fresh constant constrained by instance axioms
+    that hold for *every* pair of doubles under round-to-nearest-even (each one is justified next to it), i.e. an
+    over-approximation of fp.mul: unsat results carry over, sat results are only candidates."""
     x, y = a.f, b.f
     if S.fexact:
         return FFloat(z3.fpMul(RNE, x, y))
-    for k, o in ((x, y), (y, x)):
-        c = FFloat(k).concrete()
+    for k in (a, b):
+        c = k.concrete()
         if c is not None and c == c and c != 0 and math.isfinite(c) and math.frexp(abs(c))[0] == 0.5:
-            return FFloat(z3.fpMul(RNE, x, y))   # power of two: z3 handles cheaply enough
+            return FFloat(z3.fpMul(RNE, x, y))   # power of two: cheap for the bit-blaster
     if x.get_id() > y.get_id():
         x, y = y, x
     Z, ONE = _f_consts()
 
     def ax(r):
+        xz, yz = z3.fpIsZero(x), z3.fpIsZero(y)
+        xi, yi = z3.fpIsInf(x), z3.fpIsInf(y)
+        nan = z3.Or(z3.fpIsNaN(x), z3.fpIsNaN(y), z3.And(xi, yz), z3.And(xz, yi))
         fin = z3.And(_fin(x), _fin(y))
         return [
-            z3.Implies(z3.Or(z3.fpIsNaN(x), z3.fpIsNaN(y)), z3.fpIsNaN(r)),
-            z3.Implies(fin, _fin(r)),
-            z3.Implies(z3.And(fin, z3.fpEQ(x, ONE)), z3.fpEQ(r, y)),
+            z3.fpIsNaN(r) == nan,                                                        # IEEE 754 table
+            z3.Implies(z3.Not(nan), z3.fpIsNegative(r) == z3.Xor(z3.fpIsNegative(x), z3.fpIsNegative(y))),  # sign rule
+            z3.Implies(z3.And(z3.Not(nan), z3.Or(xi, yi)), z3.fpIsInf(r)),
+            z3.Implies(z3.And(fin, z3.fpEQ(x, ONE)), z3.fpEQ(r, y)),                     # exact products
             z3.Implies(z3.And(fin, z3.fpEQ(y, ONE)), z3.fpEQ(r, x)),
-            z3.Implies(z3.And(fin, z3.Or(z3.fpIsZero(x), z3.fpIsZero(y))), z3.fpIsZero(r)),
-            z3.Implies(z3.And(fin, z3.Not(z3.fpIsZero(x)), z3.Not(z3.fpIsZero(y))), z3.Not(z3.fpIsZero(r))),
-            z3.Implies(fin, z3.fpIsNegative(r) == z3.Xor(z3.fpIsNegative(x), z3.fpIsNegative(y))),
-            # |x| <= 1  =>  |r| <= |y|   ;  |x| >= 1 => |r| >= |y|
-            z3.Implies(z3.And(fin, z3.fpLEQ(z3.fpAbs(x), ONE)), z3.fpLEQ(z3.fpAbs(r), z3.fpAbs(y))),
-            z3.Implies(z3.And(fin, z3.fpLEQ(z3.fpAbs(y), ONE)), z3.fpLEQ(z3.fpAbs(r), z3.fpAbs(x))),
-            z3.Implies(z3.And(fin, z3.fpGEQ(z3.fpAbs(x), ONE)), z3.fpGEQ(z3.fpAbs(r), z3.fpAbs(y))),
-            z3.Implies(z3.And(fin, z3.fpGEQ(z3.fpAbs(y), ONE)), z3.fpGEQ(z3.fpAbs(r), z3.fpAbs(x))),
+            z3.Implies(z3.And(fin, z3.Or(xz, yz)), z3.fpIsZero(r)),
+            # |x| <= 1 => |x*y| <= |y| exactly, |y| is representable and rounding is monotone => |r| <= |y| (so finite)
+            z3.Implies(z3.And(fin, z3.fpLEQ(z3.fpAbs(x), ONE)), _absle(r, y)),
+            z3.Implies(z3.And(fin, z3.fpLEQ(z3.fpAbs(y), ONE)), _absle(r, x)),
+            # |x| >= 1 => |x*y| >= |y| => |r| >= |y| (possibly +inf)
+            z3.Implies(z3.And(fin, z3.fpGEQ(z3.fpAbs(x), ONE)), _absle(y, r)),
+            z3.Implies(z3.And(fin, z3.fpGEQ(z3.fpAbs(y), ONE)), _absle(x, r)),
+            # no overflow / no underflow to zero inside the mid range
+            z3.Implies(z3.And(_midrange(x), _midrange(y)), z3.And(_fin(r), z3.Not(z3.fpIsZero(r)))),
         ]
 
     r = _f_relaxed("mul", (x, y), ax)
-    S.uf_apps.setdefault("Fmul", []).append(((x, y), r))
+    apps = S.uf_apps.setdefault("Fmul", [])
+    if x.get_id() == y.get_id():
+        # squares are monotone in |.|: |p| <= |q|  =>  p*p <= q*q   (rounding is monotone)
+        for (p, q), m in apps:
+            if p.get_id() == q.get_id() and p.get_id() != x.get_id():
+                S.add_side(z3.Implies(z3.And(_fin(p), _fin(x), _absle(p, x)), z3.fpLEQ(m, r)))
+                S.add_side(z3.Implies(z3.And(_fin(p), _fin(x), _absle(x, p)), z3.fpLEQ(r, m)))
+    apps.append(((x, y), r))
     return FFloat(r)
 
 
@@ -887,20 +911,22 @@ def _f_div(a, b):
     Z, ONE = _f_consts()
 
     def ax(r):
-        fin = z3.And(_fin(x), _fin(y), z3.Not(z3.fpIsZero(y)))
+        xz, yz = z3.fpIsZero(x), z3.fpIsZero(y)
+        xi, yi = z3.fpIsInf(x), z3.fpIsInf(y)
+        nan = z3.Or(z3.fpIsNaN(x), z3.fpIsNaN(y), z3.And(xz, yz), z3.And(xi, yi))
+        fin = z3.And(_fin(x), _fin(y), z3.Not(yz))
         return [
-            z3.Implies(z3.Or(z3.fpIsNaN(x), z3.fpIsNaN(y)), z3.fpIsNaN(r)),
-            z3.Implies(z3.And(z3.fpIsZero(x), z3.fpIsZero(y)), z3.fpIsNaN(r)),
-            z3.Implies(z3.And(_fin(x), z3.Not(z3.fpIsZero(x)), z3.fpIsZero(y)), z3.fpIsInf(r)),
-            z3.Implies(fin, _fin(r)),
-            z3.Implies(z3.And(fin, z3.fpEQ(x, y)), z3.fpEQ(r, ONE)),
-            z3.Implies(z3.And(fin, z3.fpEQ(y, ONE)), z3.fpEQ(r, x)),
-            z3.Implies(z3.And(fin, z3.fpIsZero(x)), z3.fpIsZero(r)),
-            z3.Implies(z3.And(fin, z3.Not(z3.fpIsZero(x))), z3.Not(z3.fpIsZero(r))),
-            z3.Implies(fin, z3.fpIsNegative(r) == z3.Xor(z3.fpIsNegative(x), z3.fpIsNegative(y))),
-            z3.Implies(fin, z3.fpLEQ(z3.fpAbs(r), ONE) == z3.fpLEQ(z3.fpAbs(x), z3.fpAbs(y))),
-            z3.Implies(fin, z3.fpGEQ(z3.fpAbs(r), ONE) == z3.fpGEQ(z3.fpAbs(x), z3.fpAbs(y))),
+            z3.fpIsNaN(r) == nan,
+            z3.Implies(z3.Not(nan), z3.fpIsNegative(r) == z3.Xor(z3.fpIsNegative(x), z3.fpIsNegative(y))),
+            z3.Implies(z3.And(z3.Not(nan), z3.Or(yz, xi)), z3.fpIsInf(r)),               # x/0, inf/y
+            z3.Implies(z3.And(z3.Not(nan), z3.Or(xz, yi)), z3.fpIsZero(r)),              # 0/y, x/inf
+            z3.Implies(z3.And(fin, z3.fpEQ(x, y)), z3.fpEQ(r, ONE)),                     # exact quotients
             z3.Implies(z3.And(fin, z3.fpEQ(z3.fpNeg(x), y)), z3.fpEQ(r, z3.fpNeg(ONE))),
+            z3.Implies(z3.And(fin, z3.fpEQ(y, ONE)), z3.fpEQ(r, x)),
+            # |x| <= |y| => |x/y| <= 1 exactly => |r| <= 1 ;  |x| >= |y| => |r| >= 1   (monotone rounding, 1 representable)
+            z3.Implies(z3.And(fin, _absle(x, y)), z3.fpLEQ(z3.fpAbs(r), ONE)),
+            z3.Implies(z3.And(fin, _absle(y, x)), z3.fpGEQ(z3.fpAbs(r), ONE)),
+            z3.Implies(z3.And(_midrange(x), _midrange(y)), z3.And(_fin(r), z3.Not(z3.fpIsZero(r)))),
         ]
 
     return FFloat(_f_relaxed("div", (x, y), ax))
@@ -913,21 +939,35 @@ def _f_sqrt(a):
     Z, ONE = _f_consts()
 
     def ax(r):
+        pos = z3.And(_fin(x), z3.fpGT(x, Z))
         return [
             z3.fpIsNaN(r) == z3.Or(z3.fpIsNaN(x), z3.And(z3.fpIsNegative(x), z3.Not(z3.fpIsZero(x)))),
-            z3.Implies(z3.fpIsZero(x), z3.fpIsZero(r)),
-            z3.Implies(z3.And(_fin(x), z3.fpGT(x, Z)), z3.And(_fin(r), z3.fpGT(r, Z))),
+            z3.Implies(z3.fpIsZero(x), z3.And(z3.fpIsZero(r), z3.fpIsNegative(r) == z3.fpIsNegative(x))),
+            z3.Implies(pos, z3.And(_fin(r), z3.fpGT(r, Z))),                 # sqrt neither underflows nor overflows
             z3.Implies(z3.fpEQ(x, ONE), z3.fpEQ(r, ONE)),
-            z3.Implies(z3.And(z3.fpGT(x, Z), z3.fpLT(x, ONE)), z3.And(z3.fpGEQ(r, x), z3.fpLEQ(r, ONE))),
-            z3.Implies(z3.fpGT(x, ONE), z3.And(z3.fpLEQ(r, x), z3.fpGEQ(r, ONE))),
+            # 0 < x < 1 => x <= sqrt(x) <= 1 exactly; both bounds representable, rounding monotone
+            z3.Implies(z3.And(pos, z3.fpLT(x, ONE)), z3.And(z3.fpGEQ(r, x), z3.fpLEQ(r, ONE))),
+            z3.Implies(z3.And(pos, z3.fpGT(x, ONE)), z3.And(z3.fpLEQ(r, x), z3.fpGEQ(r, ONE))),
             z3.Implies(z3.And(z3.fpIsInf(x), z3.fpIsPositive(x)), z3.And(z3.fpIsInf(r), z3.fpIsPositive(r))),
         ]
 
     r = _f_relaxed("sqrt", (x,), ax)
-    # sqrt(t*t) = |t| for the relaxed products seen so far
+    # sqrt(fl(t*t)) = |t| (no overflow/underflow): classical IEEE result, guarded by the mid range; with the monotonicity
+    # of sqrt:  0 <= x <= fl(t*t)  =>  sqrt(x) <= |t|   and   x >= fl(t*t)  =>  sqrt(x) >= |t|
+    seen = set()
     for (p, q), m in S.uf_apps.get("Fmul", []):
-        if m.get_id() == x.get_id() and p.get_id() == q.get_id():
-            S.add_side(z3.Implies(_fin(p), z3.fpEQ(r, z3.fpAbs(p))))
+        if p.get_id() == q.get_id() and p.get_id() not in seen:
+            seen.add(p.get_id())
+            S.add_side(z3.Implies(z3.And(_midrange(p), z3.fpEQ(x, m)), z3.fpEQ(r, z3.fpAbs(p))))
+            S.add_side(z3.Implies(z3.And(_midrange(p), z3.fpGEQ(x, Z), z3.fpLEQ(x, m)), z3.fpLEQ(r, z3.fpAbs(p))))
+            S.add_side(z3.Implies(z3.And(_midrange(p), z3.fpGEQ(x, m), _fin(x)), z3.fpGEQ(r, z3.fpAbs(p))))
+    # sqrt is monotone
+    apps = S.uf_apps.setdefault("Fsqrt", [])
+    for (p,), m in apps:
+        if p.get_id() != x.get_id():
+            S.add_side(z3.Implies(z3.And(z3.fpGEQ(p, Z), z3.fpLEQ(p, x)), z3.fpLEQ(m, r)))
+            S.add_side(z3.Implies(z3.And(z3.fpGEQ(x, Z), z3.fpLEQ(x, p)), z3.fpLEQ(r, m)))
+    apps.append(((x,), r))
     return FFloat(r)
 
 
@@ -1293,6 +1333,8 @@ def _clip(x, lo, hi, out=None, **kw):
 def same(a, b):
     """z3 Bool: identical values, NaN == NaN (Mode R ignores the sign of zero; Mode F: bit-identical up to NaN payload)"""
     a, b = tf(a), tf(b)
+    if a is b or a._key() == b._key():
+        return z3.BoolVal(True)       # structurally identical terms
     if S.mode == "R":
         return ZB(OR(AND(a.nan, b.nan), AND(a.pinf, b.pinf), AND(a.ninf, b.ninf), AND(a.fin(), b.fin(), a.v == b.v)))
     return z3.Or(z3.And(z3.fpIsNaN(a.f), z3.fpIsNaN(b.f)), a.f == b.f)
@@ -1430,7 +1472,10 @@ def _obj(x):
                 raise ValueError("setting an array element with a sequence. The requested array has an inhomogeneous shape")
         out = np.empty((len(parts),) + shp, dtype=object)
         for i, p in enumerate(parts):
-            out[i] = p
+            if p.ndim == 0:
+                out[i] = p.item()
+            else:
+                out[i, ...] = p
         return out
     out = np.empty((), dtype=object)
     out[()] = x
@@ -1552,8 +1597,10 @@ class SymArray:
         return _reduce(self, lambda x, y: tb_(x) & tb_(y), axis, kw.get("keepdims", False))
 
     def __getitem__(self, k):
-        if isinstance(k, SymArray):
-            raise Unsupported("indexing with a symbolic array")
+        if isinstance(k, (SymArray, SymBool)):
+            return MaskedSelection(self, k, self)
+        if isinstance(k, np.ndarray) and k.dtype == bool and k.shape == self.a.shape and self.a.ndim == 0:
+            return MaskedSelection(self, k, self)
         if isinstance(k, tuple) and any(isinstance(e, SymArray) for e in k):
             raise Unsupported("indexing with a symbolic array")
         r = self.a[k]
@@ -1562,6 +1609,10 @@ class SymArray:
     def __setitem__(self, k, v):
         if isinstance(k, (SymArray, SymBool)) or (isinstance(k, np.ndarray) and k.dtype == bool):
             # boolean mask assignment: value broadcast (scalar or same shape)
+            if isinstance(v, MaskedSelection):
+                if not v.same_mask(k, self):
+                    raise Unsupported("assignment of a masked selection under a different mask")
+                v = v.values
             if _is_nd(v) and _obj(v).shape != self.a.shape:
                 raise Unsupported("mask assignment with a non-scalar value of different shape")
             new = ew_arr(lambda m, val, old: _select(tb(m), val, old), k, v, self)
@@ -1597,6 +1648,71 @@ class SymArray:
 
     def __invert__(self):
         return ew(lambda a: ~tb_(a), self)
+
+
+class MaskedSelection:
+    """x[mask] for a symbolic boolean mask: the number of selected elements is symbolic, so the selection is kept as
+    (full-shape values, mask).  Elementwise arithmetic keeps the mask; it can be assigned back under the same mask
+    (`x[m] = f(x[m])`).  Anything else (len, reductions, mixing masks) is refused."""
+
+    __hash__ = None
+    __array_priority__ = 1000
+
+    def __init__(self, base, mask, values):
+        self.base, self.mask, self.values = base, mask, values
+
+    def same_mask(self, mask, base):
+        if self.base.a.shape != base.a.shape:
+            return False
+        if mask is self.mask:
+            return True
+        m1, m2 = _obj(mask), _obj(self.mask)
+        if m1.shape != m2.shape:
+            return False
+        return all((a is b) or (isinstance(a, SymBool) and isinstance(b, SymBool) and _bid(a.e) == _bid(b.e)) for a, b in zip(m1.flat, m2.flat))
+
+    def _map(self, f):
+        return MaskedSelection(self.base, self.mask, f(self.values))
+
+    def _bin(self, o, f, swap=False):
+        if isinstance(o, MaskedSelection):
+            if not o.same_mask(self.mask, self.base):
+                raise Unsupported("masked selections with different masks")
+            o = o.values
+        elif _is_nd(o):
+            raise Unsupported("masked selection combined with an array")
+        return self._map(lambda v: f(o, v) if swap else f(v, o))
+
+    def __add__(self, o): return self._bin(o, lambda a, b: a + b)
+    def __radd__(self, o): return self._bin(o, lambda a, b: a + b, True)
+    def __sub__(self, o): return self._bin(o, lambda a, b: a - b)
+    def __rsub__(self, o): return self._bin(o, lambda a, b: a - b, True)
+    def __mul__(self, o): return self._bin(o, lambda a, b: a * b)
+    def __rmul__(self, o): return self._bin(o, lambda a, b: a * b, True)
+    def __truediv__(self, o): return self._bin(o, lambda a, b: a / b)
+    def __rtruediv__(self, o): return self._bin(o, lambda a, b: a / b, True)
+    def __pow__(self, o): return self._bin(o, lambda a, b: a ** b)
+    def __neg__(self): return self._map(lambda v: -v)
+    def __abs__(self): return self._map(abs)
+
+    def __array_ufunc__(self, ufunc, method, *inputs, **kw):
+        if method != "__call__" or kw.get("out") is not None:
+            raise Unsupported("ufunc method on a masked selection")
+        if len(inputs) == 1:
+            return self._map(lambda v: dispatch(ufunc.__name__, (v,), {}))
+        a, b = inputs
+        if a is self:
+            return self._bin(b, lambda x, y: dispatch(ufunc.__name__, (x, y), {}))
+        return self._bin(a, lambda x, y: dispatch(ufunc.__name__, (x, y), {}), True)
+
+    def __len__(self):
+        raise Unsupported("len() of a selection under a symbolic mask")
+
+    def __iter__(self):
+        raise Unsupported("iteration over a selection under a symbolic mask")
+
+    def __bool__(self):
+        raise Unsupported("truth value of a selection under a symbolic mask")
 
 
 def _reduce(s, f, axis, keepdims, empty=None):
@@ -1896,15 +2012,51 @@ for _n in ("exp", "log", "log10", "log1p", "cos", "sin", "tan", "tanh", "sinh", 
 _DROP_KW = ("out", "casting", "dtype", "order", "subok", "where", "signature")
 
 
+def _like(fill):
+    def f(x, dtype=None, **kw):
+        return ew_arr(lambda e: const(fill), x)
+    return f
+
+
+TABLE["zeros_like"] = _like(0.0)
+TABLE["ones_like"] = _like(1.0)
+TABLE["empty_like"] = _like(0.0)
+
+
 def dispatch(name, args, kw):
     f = TABLE.get(name)
     if f is None:
         raise Unsupported(f"symfl: numpy.{name} is not modelled")
+    out = where = None
     if kw:
-        if kw.get("out") is not None and kw.get("out") != (None,):
-            raise Unsupported(f"symfl: numpy.{name}(out=...)")
+        out = kw.get("out")
+        if isinstance(out, tuple):
+            out = out[0] if len(out) == 1 else out
+        where = kw.get("where", None)
+        if where is True:
+            where = None
         kw = {k: v for k, v in kw.items() if k not in _DROP_KW}
-    return f(*args, **kw)
+    if any(isinstance(a, MaskedSelection) for a in args):
+        sel = next(a for a in args if isinstance(a, MaskedSelection))
+        return sel.__array_ufunc__(type("U", (), {"__name__": name}), "__call__", *args)
+    r = f(*args, **kw)
+    if out is None and where is None:
+        return r
+    # ufunc(..., out=o, where=m): o[m] = r[m]; shapes: the broadcast of the inputs (and where) must fit the output operand
+    if out is None:
+        raise Unsupported(f"symfl: numpy.{name}(where=...) without out")
+    if isinstance(out, tuple):
+        raise Unsupported("multiple outputs")
+    ro = _obj(r)
+    oo = out.a if isinstance(out, SymArray) else np.asarray(out)
+    shp = np.broadcast_shapes(ro.shape, _obj(where).shape) if where is not None else ro.shape
+    if np.broadcast_shapes(shp, oo.shape) != oo.shape:
+        raise ValueError(f"non-broadcastable output operand with shape {oo.shape} doesn't match the broadcast shape {shp}")
+    if not isinstance(out, SymArray):
+        raise Unsupported("ufunc out= into a concrete array with symbolic inputs")
+    new = ew_arr(lambda m, val, old: _select(tb(m), val, old), True if where is None else where, r, out)
+    out.a[...] = new.a
+    return out
 
 
 def _ufunc(ufunc, method, inputs, kw):
